@@ -28,6 +28,8 @@ structure Case where
   p : Params
   A : List Msg
   B : List Msg
+  /-- the attempt ends before `waitUntilAllDone` is called (failed signing attempt) -/
+  noWait : Bool := false
 
 def parseAttempt (operators : List Nat) : List String → Option Case
   | [inc, msg, att, to, a, b] => do
@@ -36,9 +38,9 @@ def parseAttempt (operators : List Nat) : List String → Option Case
     let attempt ← canonNat? att big
     let timeout ← canonNat? to big
     let A ← parseMsgs a
-    let B ← parseMsgs b
+    let B ← if b == "nowait" then some [] else parseMsgs b
     if A.length + B.length > 400 then none
-    else pure ⟨⟨operators, included, message, attempt, timeout⟩, A, B⟩
+    else pure ⟨⟨operators, included, message, attempt, timeout⟩, A, B, b == "nowait"⟩
   | _ => none
 
 def chunks6 : List String → Option (List (List String))
@@ -53,7 +55,9 @@ def parseCases (line : String) : Option (List Case) :=
   | "done" :: ops :: rest => do
     let operators ← parseSmall ops 1000
     if operators.isEmpty || operators.length > 255 || rest.length != 6 then none
-    else pure [← parseAttempt operators rest]
+    else do
+      let c ← parseAttempt operators rest
+      if c.noWait then none else pure [c]
   | "dones" :: ops :: rest => do
     let operators ← parseSmall ops 1000
     let cs ← chunks6 rest
@@ -71,8 +75,12 @@ def model (line : String) : String :=
   | none => "bad-op"
   | some cs =>
     ";".intercalate (cs.map fun c =>
-      let r := scenario .fixed c.p c.A c.B
-      s!"{showOutcome r.1}/{r.2}")
+      if c.noWait then
+        -- only the listener ran: the confirmations recorded from A
+        s!"nowait/{(runWait .fixed c.p [] (c.A.map .recv)).2.length}"
+      else
+        let r := scenario .fixed c.p c.A c.B
+        s!"{showOutcome r.1}/{r.2}")
 
 def parseOutcome (s : String) : Option Outcome :=
   match s.splitOn "." with
@@ -84,6 +92,14 @@ def parseOutcome (s : String) : Option Outcome :=
   | _ => none
 
 def monitorOne (c : Case) (obs : String) : String :=
+  if c.noWait then
+    match obs.splitOn "/" with
+    | ["nowait", n] =>
+      match n.toNat? with
+      | some cnt => if holds c.p c.A .timeout cnt then "ok" else "FAIL excluded-member-recorded"
+      | none => "FAIL unparsable-observation"
+    | _ => "FAIL unparsable-observation"
+  else
   match obs.splitOn "/" with
   | [o, n] =>
     match parseOutcome o, n.toNat? with
